@@ -19,4 +19,8 @@ Pre  == "local a, f = 1, print "
 Post == "\nreturn a\n"
 Text(t, k) == Pre \o SubSeq(Templates[t], 1, k) \o "@" \o SubSeq(Templates[t], k + 1, Len(Templates[t])) \o Post
 Offsets(t) == 0..Len(Templates[t])
+\* the two edges of the FILE: the character is the very first / the very last thing of the text (a byte order mark at
+\* offset 0 is what editors write; the token ranges of everything after it depend on how it is handled)
+EdgeTexts(t) == << "@" \o Templates[t] \o Post, "@" \o Pre \o Templates[t] \o Post, "@\n" \o Templates[t] \o Post,
+                   Pre \o Templates[t] \o Post \o "@", Pre \o Templates[t] \o "\n@" >>
 =============================================================================
